@@ -178,7 +178,13 @@ class Session:
 
     # ---- facts -----------------------------------------------------------
     def facts(self, config=None):
-        return load_facts(config or self.config, self.include_root)
+        fb = load_facts(config or self.config, self.include_root)
+        log = getattr(fb, 'inline_log', None)
+        if log and not getattr(self, '_inline_noted', False):
+            self._inline_noted = True
+            for l in log:
+                self.note('yk/inline.py: ' + l)
+        return fb
 
     # ---- recording -------------------------------------------------------
     def rule(self, rid, text):
